@@ -1058,6 +1058,12 @@ func TestVS_Handshake(t *testing.T) {
 	}
 	wg.Wait()
 	close(stopKick)
+	// whatever the executions left in /dev/shm has been reported; do not leave it to the next run
+	if m, err := filepath.Glob(fmt.Sprintf("/dev/shm/vsHS%dx*", os.Getpid())); err == nil {
+		for _, f := range m {
+			os.Remove(f)
+		}
+	}
 	res.Goroutines = runtime.NumGoroutine()
 	b, _ := json.Marshal(res)
 	if err := os.WriteFile(os.Getenv("VS_OUT"), b, 0o644); err != nil {
